@@ -101,6 +101,8 @@ struct Program
     bool navigate = true;
     std::vector<std::string> extra_tags;
     std::string source_file;  // bundled file the input is read from (family file)
+    std::string source_text;  // literal JSON text the input is read from (family legacy)
+    bool file_entry = false;  // also exercise the file-name entry points of OrangeParams
     int nav_per_class = 0;  // >0: navigate only this many programs per structure class
 };
 
@@ -133,6 +135,7 @@ inline void add_file_programs(std::vector<Program>& out, vf::Run& R)
             Program p;
             p.id = fmt("file:%s/%s", sub, n.c_str());
             p.source_file = path;
+            p.file_entry = true;
             // legacy-format reader branches, read off the raw text
             {
                 std::ifstream f(path);
@@ -515,3 +518,4 @@ inline void add_builder_programs(std::vector<Program>& out, bool thorough)
 }  // namespace c19
 
 #include "problems/c19_handwritten.hh"
+#include "problems/c19_legacy.hh"
